@@ -169,6 +169,46 @@ def has_visited(facts, crate, f, region=None, depth=2, _seen=None):
     return False
 
 
+DETECTORS = {}  # map field -> cycle detectors that guard its insertions (filled by acyclic_by_construction)
+
+
+def detector_collectors(facts, crate_name, det_path, enum_path, depth=2):
+    """functions reachable from the detector (same crate, <= depth calls) that dispatch on `enum_path` and call
+    themselves (directly or from a closure they create): the walks that enumerate the edges the detector sees"""
+    from . import cover
+
+    out, seen, frontier = [], {det_path}, [det_path]
+    for _ in range(depth + 1):
+        nxt = []
+        for p in frontier:
+            h = facts.fn(p)
+            if h is None:
+                continue
+            fam = facts.family(crate_name, h.root)
+            cov = cover.coverage(facts, h, enum_path)
+            if cov is not None and cov.primary is not None and any((callee(t) or "") == h.path for g in fam for _, t in g.calls()) or (
+                cov is not None and cov.primary is not None and any(fn_mentions(g, h.path) for g in fam)
+            ):
+                out.append((h, cov))
+            for g in fam:
+                for _, t in g.calls():
+                    c = callee(t) or ""
+                    if c.startswith(crate_name + "::") and c not in seen:
+                        seen.add(c)
+                        nxt.append(c)
+        frontier = nxt
+    return out
+
+
+def fn_mentions(g, path):
+    """a fn item passed as a value (`.flat_map(Self::collect)`)"""
+    for _, t in g.calls():
+        for a in t[5]:
+            if a[0] == "c" and len(a) > 3 and a[1] == "fn" and a[3] == path:
+                return True
+    return False
+
+
 def acyclic_by_construction(facts, crate_name, fld):
     """all inserts into map field `fld` are dominated by a branch on a cycle detector's result; returns (ok, detail)"""
     if not fld:
@@ -205,6 +245,7 @@ def acyclic_by_construction(facts, crate_name, fld):
                     h = facts.fn(c)
                     if h is not None and has_visited(facts, crate_name, h):
                         guarded = True
+                        DETECTORS.setdefault(fld, set()).add(h.path)
                         break
                     if r[1][5]:
                         cur = r[1][5][0]
@@ -230,6 +271,7 @@ def acyclic_by_construction(facts, crate_name, fld):
 def run(ck, facts, R, crates, floor=3):
     ck.rule(R, "every walk that follows a map (held in a struct field) from key to key — by loop or by self-recursion — has a termination argument: it tests membership in a growing visited collection, or the map is acyclic by construction (each insertion is control-dependent on a cycle detector)")
     n = 0
+    pending_detectors = {}
     for cn in crates:
         for f in facts.crate(cn).fns:
             if f.kind == "promoted" or "::test" in f.path:
@@ -243,6 +285,38 @@ def run(ck, facts, R, crates, floor=3):
                 ok, detail = acyclic_by_construction(facts, cn, fld)
                 if ok:
                     ck.ok(R, key, {"walker": f.short, "kind": kind, "map": fld, "termination": "map acyclic by construction: " + detail})
+                    pending_detectors.setdefault(fld, cn)
                 else:
                     ck.bad(R, key, "%s follows %s from key to key (%s) without a visited set, and the map is not acyclic by construction (%s): a cycle written by the user (`use` / `type alias` declarations pointing at each other) makes the front end loop forever or overflow the stack instead of answering with a diagnostic" % (f.short, (fld or "a map").split("::")[-1], kind, detail), f.where(item))
     ck.floor(R, "chain_walkers", n, floor)
+    # the argument "acyclic by construction" is only as good as the detector: the walk that enumerates the edges it
+    # checks must look into every composite type (a cycle through a form it skips is registered unnoticed)
+    from . import cover as _cover
+    from .. import roles as _roles
+
+    adt = facts.adt(_roles.TYPE)
+    typed = {v["n"] for v in (adt["variants"] if adt else []) if any("TypeNodeId" in fl[1] or "RecordTypeField" in fl[1] for fl in v["f"])}
+    # what a user can write: the forms the parser's lowering of type annotations constructs (Ref / Boxed are made by
+    # later stages only) plus UserSum declarations
+    written = set()
+    for cn in {c for c in pending_detectors.values()}:
+        pf = [g for g in facts.crate(cn).fns if "::compiler::parser::" in g.path and g.kind != "promoted"]
+        written |= set(_cover.constructed_variants(pf, _roles.TYPE))
+    if written & typed:
+        typed = (typed & written) | ({"UserSum"} & typed)
+    m = 0
+    for fld, cn in sorted(pending_detectors.items()):
+        for det in sorted(DETECTORS.get(fld, ())):
+            for h, cov in detector_collectors(facts, cn, det, _roles.TYPE):
+                handled = cov.primary_handled()
+                if not (handled & typed):
+                    continue  # not a structural walk over types
+                for v in sorted(typed):
+                    m += 1
+                    key = "detector-arm|%s|%s" % (h.short.split("::")[-1], v)
+                    if v in handled and cov.arm_target(v) is not None:
+                        ck.ok(R, key)
+                    else:
+                        ck.bad(R, key, "%s enumerates the type names a definition refers to for the cycle detector %s, but has no arm for Type::%s (it falls into the catch-all that finds nothing), although that form holds component types: a cycle that passes through a %s type is registered as if it were acyclic, and the walk that expands it never ends (stack overflow instead of a diagnostic)" % (h.short, det.split("::")[-1], v, v), h.where())
+    if pending_detectors:
+        ck.floor(R, "detector_collector_arms", m, 6)
